@@ -153,6 +153,10 @@ type Run struct {
 	// cleaned or blocks compacted since (a block whose samples are all deleted is removed, and
 	// with it the bound that keeps WAL replay from re-reading those samples), 3 reopened since.
 	blockDeleted map[int]map[int64]int
+	// staleReordered: series for which a commit reordered a converted staleness marker behind
+	// later samples (known finding stale-marker-conversion-reorders-commit); the WAL holds the
+	// records in the original order, so the divergence can also surface at a later restart.
+	staleReordered map[int]bool
 	// Known finding "snapshot-restart-reissues-series-ref": createdThisSession lists series that
 	// got a ref since the last open; ghostAtReopen is set when, with snapshot-on-shutdown, the
 	// database was reopened while such a series had no data in the head (it is in neither the
@@ -188,6 +192,12 @@ const SigHeadDeleteLost = "head-delete-lost-after-compaction-and-restart"
 
 // SigBlockDeleteLost names the known finding about samples deleted in a block that WAL replay brings back.
 const SigBlockDeleteLost = "block-delete-lost-after-tombstone-cleanup-and-restart"
+
+// SigDupRecordDropsOOO names the known finding about a duplicate series record wiping m-mapped out-of-order chunks.
+const SigDupRecordDropsOOO = "duplicate-series-record-drops-ooo-mmapped-chunks"
+
+// SigSnapRef names the known finding about a series ref re-issued after a snapshot restart.
+const SigSnapRef = "snapshot-restart-reissues-series-ref"
 
 // SigMixedBound names the known finding about merged out-of-order blocks raising the restart bound.
 const SigMixedBound = "ooo-block-merged-raises-restart-bound"
@@ -360,7 +370,7 @@ func (r *Run) RiskBound() int64 { return r.riskBound }
 // StartDir opens a database in the given (empty or existing) directory.
 func StartDir(h History, rec *ev.Rec, dir string) (*Run, error) {
 	r := &Run{Cfg: h.Cfg, Dir: dir, Rec: rec, Apps: map[int]*appState{}, Did: map[string]int{}, CheckAdmission: true,
-		oooDeleteSurvivors: map[int]map[int64]bool{}, deletedRanges: map[int][][2]int64{}, hiddenCands: map[int]map[int64]bool{}, oooULIDs: map[string]bool{}, riskBound: math.MinInt64, lastRef: map[int]storage.SeriesRef{}, createdThisSession: map[int]bool{}, headDeleted: map[int]map[int64]int{}, blockDeleted: map[int]map[int64]int{}, everCreated: map[int]bool{}, dupStage: map[int]int{}, creator: map[int]int{}, established: map[int]bool{}, tainted: map[int]bool{}, taintedReopened: map[int]bool{}}
+		oooDeleteSurvivors: map[int]map[int64]bool{}, deletedRanges: map[int][][2]int64{}, hiddenCands: map[int]map[int64]bool{}, oooULIDs: map[string]bool{}, riskBound: math.MinInt64, lastRef: map[int]storage.SeriesRef{}, createdThisSession: map[int]bool{}, headDeleted: map[int]map[int64]int{}, blockDeleted: map[int]map[int64]int{}, staleReordered: map[int]bool{}, everCreated: map[int]bool{}, dupStage: map[int]int{}, creator: map[int]int{}, established: map[int]bool{}, tainted: map[int]bool{}, taintedReopened: map[int]bool{}}
 	r.M = tm.New(h.Cfg.NSeries, h.Cfg.ChunkRange, h.Cfg.OOOWindow)
 	if err := r.open(); err != nil {
 		os.RemoveAll(dir)
@@ -622,6 +632,7 @@ func (r *Run) exec(op Op) error {
 			// known finding: a float staleness marker for a histogram series is converted at commit
 			// and thereby moved behind samples of the same series appended after it in the same batch
 			r.commitSigs[si] = "stale-marker-conversion-reorders-commit"
+			r.staleReordered[si] = true
 		}
 	case "rollback":
 		a := r.Apps[op.A]
@@ -875,8 +886,19 @@ func (r *Run) classify(opK string, err error) error {
 			return ev.FailSig(SigWBLOrphan, "%s", err.Error())
 		}
 	}
+	if r.failMissing && r.dupStage[r.failSeries] >= 2 && (opK == "reopen" || opK == "crashreopen") {
+		if p := r.M.Series[r.failSeries].Pts[r.failT]; p != nil && (p.OOOHead || p.WasOOO) {
+			return ev.FailSig(SigDupRecordDropsOOO, "%s", err.Error())
+		}
+	}
 	if r.taintedReopened[r.failSeries] {
 		return ev.FailSig(SigSeriesRecordOrder, "%s", err.Error())
+	}
+	if r.staleReordered[r.failSeries] && opK != "commit" {
+		return ev.FailSig("stale-marker-conversion-reorders-commit", "%s", err.Error())
+	}
+	if r.SnapRefRisk && (opK == "reopen" || opK == "crashreopen") {
+		return ev.FailSig(SigSnapRef, "%s", err.Error())
 	}
 	return err
 }
